@@ -145,10 +145,11 @@ for l in open('/verif/properties.jsonl'):
 
 BASIC_SRC = 'THE MODEL OF THE THREE BASIC CLASSES IS THE SOURCE: GenBasic.prog_of c is the program (deep-embedded generator language GenLang) that harness/translate.py produces from the _iterator method of NoneCheckpointSchedule / SingleMemoryStorageSchedule / SingleDiskStorageSchedule; Gen/BasicGen.v re-translates the current source on every run and proves it equal to that term by conversion.  Resuming that program request by request (GenLang.run = next() on the suspended generator; finalize = the base-class method on the attributes) from the freshly constructed object gives, under EVERY history of next() and finalize(k) calls, exactly the observations (outcome, n, r, max_n, is_exhausted) of the hand-written model Online.run_ops -- so the theorems of this file about these three classes, stated on the extracted model, are theorems about the translated source'
 TWO_SRC = 'THE MODEL OF TwoLevelCheckpointSchedule IS THE SOURCE: GenTwo.two_prog_model is the program (generator language GenLang2: named locals, the snapshots stack, //, *, min, n_advance, assert, del) that harness/translate.py produces from TwoLevelCheckpointSchedule._iterator; Gen/TwoLevelGen.v re-translates the current source on every run and proves it equal to that term by conversion.  Resuming that program request by request from the freshly constructed object gives, for every period, unit count, storage and trajectory the constructor accepts and under EVERY history of next() and finalize(k) calls, exactly the observations (outcome, n, r, max_n, is_exhausted) of the hand-written machine Online.run_ops (class KTwo) -- so the TwoLevel theorems of this file, stated on the extracted model, are theorems about the translated source (n_advance itself is tied by Gen/NAdvanceGen.v)'
+MULTI_SRC = 'THE MODEL OF MultistageCheckpointSchedule IS THE SOURCE: GenMulti.multi_prog_model is the program (generator language GenLang3) that harness/translate.py produces from MultistageCheckpointSchedule._iterator, the nested helper write(n) inlined at its two call sites; Gen/MultistageGen.v re-translates the current source on every run and proves it equal to that term by conversion.  For every parameter tuple the constructor accepts, resuming that program request by request gives under EVERY history of next() and finalize(k) calls exactly the observations (outcome, n, r, max_n, is_exhausted) of the schedule object of Model/Sched.v (srun_ops: Sched.next / Sched.finalize on the Multistage machine) -- so the Multistage theorems of this file, stated on the extracted model, are theorems about the translated source.  (The unit total self._snapshots_in_ram + self._snapshots_on_disk is read as the length of the label tuple self._storage, which is what __init__ recounts them from; the allocation of the labels, allocate_snapshots, is tied by the correspondence.)'
 files = {}
 for pid, cls in [('C01','C01'),('C02','C02'),('C03','C03'),('C04','C04'),('C08','C08'),('C12','C12')]:
     body = HEAD % (pid, TITLES[pid]) + safety(pid, cls, '')
-    body = body.replace("From CS Require Import Actions", "From CS Require Ops RevConv RevBridge4 RevolveRun Refuted DiskRun DiskBridge3 HRevRun HRevTop GenLang GenBasic GenLang2 GenTwo.\nFrom CS Require Import Actions")
+    body = body.replace("From CS Require Import Actions", "From CS Require Ops RevConv RevBridge4 RevolveRun Refuted DiskRun DiskBridge3 HRevRun HRevTop GenLang GenBasic GenLang2 GenTwo GenLang3 GenMulti.\nFrom CS Require Import Actions")
     if pid != 'C04':
         body += disk_safety(pid, cls)
         body += hrev_safety(pid, cls)
@@ -183,6 +184,7 @@ Print Assumptions C04_hrevolve_only_leftover_partial.
         body += lifted(new % pid, mod, name, cm)
     body += lifted('%s_basic_source_is_model' % pid, 'GenBasic', 'basic_from_start', BASIC_SRC)
     body += lifted('%s_twolevel_source_is_model' % pid, 'GenTwo', 'two_from_start', TWO_SRC)
+    body += lifted('%s_multistage_source_is_model' % pid, 'GenMulti', 'multi_from_start', MULTI_SRC)
     files[pid] = body
 
 
@@ -209,7 +211,8 @@ Proof. exact multistage_run. Qed.
 Print Assumptions C05_multistage_forward_total.
 
 """
-mk('C05', ['Inst','GW2','RevCost','BinomDP','RevConv','RevBridge4','RevolveRun','RevolveGW','Opt0Table'], [C05_total,
+mk('C05', ['Inst','GW2','RevCost','BinomDP','RevConv','RevBridge4','RevolveRun','RevolveGW','Opt0Table','GenLang3','GenMulti'], [C05_total,
+   lifted('C05_multistage_source_is_model','GenMulti','multi_from_start',MULTI_SRC),
    lifted('C05_chain','Inst','C05_chain','TC (the forward work of the recursion n_advance defines) = n + E n k, and E n k = the Griewank-Walther closed form; E = the model of optimal_extra_steps'),
    lifted('C05_gw_main','GW2','GW_main','Griewank-Walther: DP value = schedule recursion = closed form, for any E, Eh satisfying the DP / recursion equations'),
    lifted('C05_dp_is_min','BinomDP','E_le','the DP value is minimal among all bisection splits'),
@@ -273,9 +276,10 @@ Proof. exact twolevel_run. Qed.
 Print Assumptions C09_twolevel_passes.
 
 """
-mk('C09', ['MSTerm','OnlineFlags','Flags','RevConv','RevBridge4','RevolveRun','PassRepeat','Online','DiskRun','DiskBridge3','HRevRun','HRevTop','GenLang','GenBasic','GenLang2','GenTwo'], [
+mk('C09', ['MSTerm','OnlineFlags','Flags','RevConv','RevBridge4','RevolveRun','PassRepeat','Online','DiskRun','DiskBridge3','HRevRun','HRevTop','GenLang','GenBasic','GenLang2','GenTwo','GenLang3','GenMulti'], [
    lifted('C09_basic_source_is_model','GenBasic','basic_from_start',BASIC_SRC),
    lifted('C09_twolevel_source_is_model','GenTwo','two_from_start',TWO_SRC),
+   lifted('C09_multistage_source_is_model','GenMulti','multi_from_start',MULTI_SRC),
    lifted('C09_flags','Flags','C09_flags','FLAGS, all thirteen classes, every parameter tuple the constructor accepts, every history of next() / finalize(k) requests (ops), any executor parameters: before the first request is_exhausted = is_running = False; after every next() is_running = True; is_exhausted after a request = (the final action of the class has been yielded so far) -- final_action: EndForward for None, EndReverse for the offline classes and SingleDisk(move), none for SingleMemory, SingleDisk(copy), TwoLevel; no action is yielded once the final action has been seen (only StopIteration / an exception), and finalize never changes the flag. flags_hist is the trace rule, defined in Proofs/OnlineFlags.v'),
    C09_runs,
    lifted('C09_multistage_flags_on_runs','MultistageRun','multistage_flags','the same rule read on the raise-free Multistage runs of the run theorem (every line: is_running, and is_exhausted = (the action is EndReverse), StopIteration only with is_exhausted)'),
@@ -313,7 +317,7 @@ Print Assumptions C13_twolevel_run.
    lifted('C13_pass_totals','TLBridge','twolevel_totals','SECOND CLAUSE, totals on the extracted model: whenever the generator stands between adjoint passes (head of its `while True`: after EndForward / each EndReverse) the reference executor has carried out N + passes * W forward steps, W = TLBridge.W = the sum over the period blocks of T(block length, binomial_snapshots + 1) with T = Inst.TC, the work of the binomial recursion (= the Griewank-Walther optimum by C05_chain); every N (last block partial or full), both storages, both trajectories, all passes'),
    lifted('C13_block_total','TLInv','block_total','per block, on the TwoLevel machine of TLInv.v that the extracted machine is proved to follow (TLBridge.resume_agrees): when a block has been reversed completely, exactly T(L, b+1) forward steps were spent on it'),
    lifted('C13_storages','TLStorage','twolevel_storages','STORAGES, every history: a yielded Forward that stores a restart checkpoint names DISK or the binomial storage and stores nothing else; adjoint dependencies go to WORK only; a checkpoint is loaded into WORK from DISK or from the binomial storage'), lifted('C13_storages_step','TLStorage','resume_two_storage','... sharper, per request and from every state: while max_n is unknown a checkpointing Forward is Forward(n, n + period, True, False, DISK); once it is known, it goes to the binomial storage'), lifted('C13_exec_bridge','TLBridge','tl_exec_agrees','(auxiliary) the executor bridge of the TwoLevel invariant machine')])
-mk('C14', ['TopK','AllocProofs','SplitProofs','AllocMin','AllocGlue'], [lifted('C14_labels_only','SplitProofs','C14_labels_only','first clause: two Multistage configurations with the same max_n, trajectory and number of labels produce the same stream up to the storage named in checkpoint actions (erase_out forgets RAM/DISK), from every state and for every number of requests'),
+mk('C14', ['TopK','AllocProofs','SplitProofs','AllocMin','AllocGlue','GenLang3','GenMulti'], [lifted('C14_multistage_source_is_model','GenMulti','multi_from_start',MULTI_SRC), lifted('C14_labels_only','SplitProofs','C14_labels_only','first clause: two Multistage configurations with the same max_n, trajectory and number of labels produce the same stream up to the storage named in checkpoint actions (erase_out forgets RAM/DISK), from every state and for every number of requests'),
    lifted('C14_construct_labels','AllocProofs','construct_labels','the labels of a constructed Multistage schedule: all RAM or DISK, min(ram+disk, N-1) of them, at most min(ram, N-1) RAM and at most min(disk, N-1) DISK'),
    lifted('C14_alloc_labels_facts','AllocProofs','alloc_labels_facts','exactly min(ram, #positions) positions are labelled RAM'),
    lifted('C14_position_storage','AllocMin','ms_position_storage','second clause: a checkpoint pushed when the stack holds d entries is written to label d, and is read (Copy / Move) only while on top with d entries below it, from label d -- every state of the extracted machine'),
